@@ -159,6 +159,9 @@ def main(tier: str, budget_s: Optional[float] = None) -> int:
     total.merge(t2)
     info += i2
     complete = complete and c2
+    from rp2verif.lotrun import run_bundled
+
+    complete = run_bundled(__name__, total, info, deadline) and complete
     new, matched = common.report(PROP, total.violations)
     coverage = {
         "states": total.get("states"),
